@@ -385,6 +385,16 @@ def _contact_position(v, v1, v2, search_direction):
         ])
         coords_sum = np.sum(barycentric_coordinates)
 
+        if abs(coords_sum) < EPSILON:
+            # Degenerate portal without area seen from the origin (e.g., a
+            # touching contact for which portal vertices are repeated): the
+            # contact is at the portal vertex that is closest to the origin
+            closest = 1
+            for i in range(2, 4):
+                if v[i].dot(v[i]) < v[closest].dot(v[closest]):
+                    closest = i
+            return 0.5 * (v1[closest] + v2[closest])
+
     barycentric_coordinates /= coords_sum
 
     v1 = barycentric_coordinates.dot(v1)
